@@ -16,6 +16,8 @@ import Hw.Topo.SetStageNested
 import Hw.Topo.RenderLemmas
 import Hw.Topo.RenderOf
 import Hw.Topo.StageCompose
+import Hw.Topo.StageDecomp
+import Hw.Topo.StageTyping
 namespace Hw.Props.C01
 open Hw.Topo
 
@@ -289,6 +291,19 @@ theorem C01_remove_empty_preserves_set_clauses (t t' : Tree) (h : removeEmpty t 
 theorem C01_remove_empty_typed (t t' : Tree) (h : removeEmpty t = some t') (ht : typedT t = true) :
     typedT t' = true ∧ t'.obj = t.obj := removeEmpty_typed t t' h ht
 
+/-- … and the nodeset decomposition (WF clause `nodeset-decomposition`; `DecompT` = `SetStage.Decomp` on the four-list tree) on typed
+trees: an unlinked memory object has an empty nodeset and an unlinked normal object has no NUMA node attached at or below it, so the
+unions and the disjointness conditions at every surviving object are unchanged -/
+theorem C01_remove_empty_preserves_nodeset_decomposition (t t' : Tree) (inh : Nat) (h : removeEmpty t = some t')
+    (ht : typedT t = true) (hd : DecompT inh t) : DecompT inh t' := removeEmpty_decomp t t' inh h ht hd
+
+/-- **typing through the set stage**: if the INPUT of the set stage obeys the object-kind discipline (`typedST`, decidable: normal
+children below normal objects only, memory children below normal objects or memory-side caches, each list holding its own kind) and the
+decoration is well-kinded (`DecoTyped`), then the tree handed to `remove_empty` is typed and its root has the type of the input root: the
+typing hypotheses of `C01_pipeline_compose` follow from the input -/
+theorem C01_pipeline_typing (i : In) (dc : Deco) (h : typedST i.root = true) (hdc : DecoTyped dc) :
+    typedT (toTree dc (stage i).root) = true ∧ (toTree dc (stage i).root).obj.type = i.root.o.type := pipeline_typed i dc h hdc
+
 /-- **propagate_total_memory**: as long as the local memory of all NUMA nodes of the tree sums to less than 2^64, the value left in
 `total_memory` of every object the function visits is exactly the sum of the local memory of the NUMA nodes at or below that object
 (`subNM t` = the visited subtrees, depth-first).  Without the bound the C sums wrap (`addW`), and so does the model. -/
@@ -314,8 +329,9 @@ theorem C01_group_depth_stage (t : Tree) :
 unmodelled discovery phases between the set stage and `remove_empty` attach), `t0` = the four-list tree `remove_empty` receives.
 Hypotheses: the decidable precondition `PreSets i` and the typing of `t0` (`typedT`, evaluated by the engine on every rm_before dump).
 If `remove_empty` keeps the root (`t1`; otherwise the load fails), then
-  (a) after `remove_empty`: the C rule holds everywhere, the set clauses of the set stage still hold (`SetQ`; and every cpuset / nodeset
-      lies inside the allowed sets when INCLUDE_DISALLOWED is unset), the tree is typed and its root object is the one of `t0`;
+  (a) after `remove_empty`: the C rule holds everywhere, the set clauses of the set stage still hold (`SetQ`; every cpuset / nodeset
+      lies inside the allowed sets when INCLUDE_DISALLOWED is unset; the nodeset decomposition `DecompT`; the allowed sets lie inside the
+      root sets and are equal to them when INCLUDE_DISALLOWED is unset), the tree is typed and its root object is the one of `t0`;
   (b) after level merging (`t2 = keepStructure filters t1`) the dump `render t2 hdr ex` (for any header and any attribute carrier)
       satisfies the WF clauses id-is-position, root-or-parent, parent-kind, normal-child-slot, children-array, special-list-heads,
       special-list-links, depth-by-type, depth-increases, in-its-level, nobjs, levels-listed, level-entries-valid, levels-in-tree-order,
@@ -325,7 +341,7 @@ If `remove_empty` keeps the root (`t1`; otherwise the load fails), then
       levels of `t2` consecutively.
 NOT covered by this theorem (judged by the oracle on every loaded topology): the set clauses THROUGH level merging (they are stated for
 `t1`; they carry over to `t2` whenever merging changes nothing, `keepStructure filters t1 = t1`), cpuset-is-disjoint-union-of-children,
-nodeset-decomposition after remove_empty, children-counts and total-memory in their dump form (they go through `mkAux`), pu-cpuset,
+children-counts, and nodeset-decomposition / total-memory in their dump form (they go through `mkAux`), pu-cpuset,
 numa-nodeset, the uniqueness clauses, pu-level-deepest, numa-exists, type-depth-inverse, normal-level-types, levels-cover-objects,
 not-filtered-out, cache-attrs, siblings-ordered, symmetric_subtree. -/
 theorem C01_pipeline_compose (i : In) (dc : Deco) (filters : List Nat) (hdr : Hdr) (ex : RObj → Extra) (loc : RObj → Nat)
@@ -333,7 +349,9 @@ theorem C01_pipeline_compose (i : In) (dc : Deco) (filters : List Nat) (hdr : Hd
     (t1 : Tree) (h1 : removeEmpty (toTree dc (stage i).root) = some t1) :
     (allAlive t1 = true ∧ AllQ SetQ t1 ∧
       (i.includeDisallowed = false → AllQ (AllowedQ (stage i).allowedC (stage i).allowedN) t1) ∧
-      typedT t1 = true ∧ t1.obj = (toTree dc (stage i).root).obj) ∧
+      typedT t1 = true ∧ t1.obj = (toTree dc (stage i).root).obj ∧ DecompT 0 t1 ∧
+      Sub (stage i).allowedC t1.obj.cpuset ∧ Sub (stage i).allowedN t1.obj.nodeset ∧
+      (i.includeDisallowed = false → t1.obj.cpuset = (stage i).allowedC ∧ t1.obj.nodeset = (stage i).allowedN)) ∧
     pipeline i dc filters = some (keepStructure filters t1) ∧
     (∀ o ∈ (render (keepStructure filters t1) hdr ex).objs,
       objClause "id-is-position" (render (keepStructure filters t1) hdr ex) (mkAux (render (keepStructure filters t1) hdr ex)) o = true ∧
@@ -365,7 +383,11 @@ theorem C01_pipeline_compose (i : In) (dc : Deco) (filters : List Nat) (hdr : Hd
   have ht1 := removeEmpty_typed _ t1 h1 hty
   have hn1 : isNormal t1.obj.type = true := by rw [ht1.2, hroot]; decide
   have ht2 := typed_keepStructure filters t1 ht1.1 hn1
-  refine ⟨⟨removeEmpty_alive _ t1 h1, removeEmpty_preserves SetQ SetQ_stable _ t1 h1 hs0, fun hf => ?_, ht1.1, ht1.2⟩, ?_, fun o ho => ?_, ?_,
+  have hal := stage_allowed i hpre.covered
+  have hobj : t1.obj = robj dc (stage i).root.o := by rw [ht1.2, toTree_obj]
+  refine ⟨⟨removeEmpty_alive _ t1 h1, removeEmpty_preserves SetQ SetQ_stable _ t1 h1 hs0, fun hf => ?_, ht1.1, ht1.2,
+      removeEmpty_decomp _ t1 0 h1 hty (decompT_toTree dc _ 0 (stage_decomp i hpre)),
+      by rw [hobj]; exact hal.1, by rw [hobj]; exact hal.2.1, fun hf => by rw [hobj]; exact hal.2.2 hf⟩, ?_, fun o ho => ?_, ?_,
     fun hb => totalsT_exact loc _ hb, groupDepthsFrom_spec _ 0, setGroupDepth_lt _⟩
   · refine removeEmpty_preserves _ (AllowedQ_stable _ _) _ t1 h1 (allQ_toTree dc (fun o k m h => ?_) _ (stage_within_allowed i hf))
     exact h
@@ -393,6 +415,11 @@ example : PreSets exIn ∧ typedT (toTree exDc (stage exIn).root) = true ∧ (to
 /-- the set clauses hold before `remove_empty` (hypothesis of C01_remove_empty_preserves_set_clauses) -/
 example : AllQ SetQ (toTree exDc (stage exIn).root) :=
   allQ_toTree exDc (fun o k m h => setQ_of_post exDc o k m h) _ (stage_post exIn ((preSets_iff exIn).1 (by decide +kernel)))
+/-- the typing hypotheses follow from the input (C01_pipeline_typing), the nodeset decomposition holds before `remove_empty` -/
+example : typedST exIn.root = true := by decide +kernel
+example : DecoTyped exDc := fun o => ⟨rfl, by unfold exDc; simp only; split <;> decide, Or.inr rfl⟩
+example : DecompT 0 (toTree exDc (stage exIn).root) :=
+  decompT_toTree exDc _ 0 (stage_decomp exIn ((preSets_iff exIn).1 (by decide +kernel)))
 /-- the whole pipeline on `exIn` with Package filtered KEEP_STRUCTURE (nothing to merge here) and 100 / 200 bytes on the two NUMA nodes:
 totals per object, no Group -/
 def exLoc (o : RObj) : Nat := if o.gp = 10 then 100 else if o.gp = 11 then 200 else 0
